@@ -669,6 +669,7 @@ var _ uuid.UUID
 //@ ensures [C09 k-best-of-what-was-received] isnil(ret1) && got == 1 ==> (exists j int :: 0 <= j && j < len(ret0) && ret0[j] == theItem) || (forall j int :: 0 <= j && j < len(ret0) ==> !(theItem.Score < ret0[j].Score))
 //@ ensures [C09 as-many-as-possible] isnil(ret1) ==> len(ret0) == minInt(k, totalItems)
 //@ ensures [all-consulted] isnil(ret1) ==> real == spawned
+//@ ensures [C12 query-checked] len(query) % 4294967296 != old(this.meta.Dimension) || !old(allFinite(query)) ==> !isnil(ret1) && spawned == 0
 //@ ensures [never-nil-nil] isnil(ret1) ==> !isnil(ret0)
 //@ ensures [atmostk] isnil(ret1) ==> len(ret0) <= k
 //@ ensures [ascending] isnil(ret1) ==> sortedScores(ret0)
@@ -728,6 +729,7 @@ var _ uuid.UUID
 //@ ensures [C09 k-best-of-what-was-received] isnil(ret1) && got == 1 ==> (exists j int :: 0 <= j && j < len(ret0) && ret0[j] == theItem) || (forall j int :: 0 <= j && j < len(ret0) ==> !(theItem.Score < ret0[j].Score))
 //@ ensures [C09 as-many-as-possible] isnil(ret1) ==> len(ret0) == minInt(k, totalItems)
 //@ ensures [all-consulted] isnil(ret1) ==> real == spawned && spawned == len(partitionIds)
+//@ ensures [C12 query-checked] len(query) % 4294967296 != old(this.meta.Dimension) || !old(allFinite(query)) ==> !isnil(ret1) && spawned == 0
 //@ ensures [never-nil-nil] isnil(ret1) ==> !isnil(ret0)
 //@ ensures [atmostk] isnil(ret1) ==> len(ret0) <= k
 //@ ensures [ascending] isnil(ret1) ==> sortedScores(ret0)
